@@ -55,7 +55,8 @@ static inline std::vector<uint8_t> wk_marshal_env(RunEnv& env, int view, int ok,
     std::vector<uint8_t> out;
     for (int pass = 0; pass < 2; pass++) {
         uint8_t fill = pass ? 0x5A : 0xA5; size_t pad = R.info.sanitized ? 0 : 64;
-        Bytes b(n + pad, fill);
+        static const size_t offs[] = {0, 1, 8, 0, 5, 0, 2, 12};
+        MBytes b(n + pad, offs[(n + (size_t) ok + (size_t) pass) % 8], fill);
         R.jv_wk_marshal(view, ok, b.p, obj, comp);
         for (size_t i = n; i < n + pad; i++) if (b.p[i] != fill) env.fail("C15", "marshal:writes-exactly-reported-length", strf("marshal wrote byte %zu, get_marshalled_length reported %zu", i, n));
         if (pass == 0) out.assign(b.p, b.p + n);
@@ -100,6 +101,7 @@ static inline bool substitute_element(Rep& R, std::vector<uint8_t>& buf, size_t 
     else if (kind == "ff") std::fill(e.begin(), e.end(), 0xFF);
     else if (kind == "wrongform") { e[0] ^= FL_COMPRESSED; }
     else if (kind == "greater") { if (comp) return false; e[0] |= FL_GREATER; }
+    else if (kind == "infinity") { std::fill(e.begin(), e.end(), 0); e[0] = FL_INFINITY | (comp ? FL_COMPRESSED : 0); }     // the canonical identity: a valid element
     else if (kind == "other") {
         uint8_t k[32]; r.fill(k, 32); Buf a(R.sz(g == 1 ? JV_SZ_G1A : JV_SZ_G2A));
         if (g == 1) { Buf gen(R.sz(JV_SZ_G1A)); R.jv_const_get(JV_EK_G1A, 1, gen); G1v p; R.jv_g1_multiply_affine(1, p.b, gen, k); R.jv_g1affine_from_projective(1, a, p.b); }
